@@ -10,7 +10,8 @@ CONSTANTS
   Ops = {"submit", "status", "cancel"}
   FindUnitHoldsRLock = FALSE
   KF_EmptyStatus = TRUE
-  KF_CancelOverS = TRUE
+  KF_CancelOverS = FALSE
+  CancelKeepsSucceeded = TRUE
   KF_LiveRunnerFailed = TRUE
 INVARIANTS
   TypeOK
